@@ -104,6 +104,12 @@ func (t *tStructProto) structUnpack(m erpc.Message) error {
 		return err
 	}
 
+	// the frame headers are available once the message has begun: set status and metadata
+	// before the body is bound, so that whoever binds the body sees them
+	headers := t.tProtocol.GetReadHeaders()
+	m.Status(true).DecodeQuery(goutil.StringToBytes(headers[HeaderStatus]))
+	m.Meta().Parse(headers[HeaderMeta])
+
 	m.UnmarshalBody(nil)
 	s, ok := m.Body().(thrift.TStruct)
 	if !ok {
@@ -116,10 +122,6 @@ func (t *tStructProto) structUnpack(m erpc.Message) error {
 	if err = t.tProtocol.ReadMessageEnd(); err != nil {
 		return err
 	}
-
-	headers := t.tProtocol.GetReadHeaders()
-	m.Status(true).DecodeQuery(goutil.StringToBytes(headers[HeaderStatus]))
-	m.Meta().Parse(headers[HeaderMeta])
 
 	m.SetBodyCodec(codec.ID_THRIFT)
 	return m.SetSize(uint32(t.rwCounter.Readed()))
